@@ -2,6 +2,8 @@ package main
 
 import (
 	"fmt"
+
+	"github.com/casbin/casbin/v2"
 )
 
 func init() { registry["C05"] = runC05 }
@@ -64,6 +66,8 @@ func groupingAlphabet(gt string, L [][]string, fresh []string) []EOp {
 		// a link on both sides of an update: the order of unlinking and linking becomes observable
 		EOp{Kind: "upd", Sec: "g", PType: gt, Rule: L[0], New: L[0]},
 		EOp{Kind: "upds", Sec: "g", PType: gt, Rules: [][]string{L[0], L[1]}, News: [][]string{L[2], L[0]}},
+		// an unchanged pair first: the pairing of old and new rules must not shift
+		EOp{Kind: "upds", Sec: "g", PType: gt, Rules: [][]string{L[0], L[1]}, News: [][]string{L[0], L[3]}},
 		EOp{Kind: "rmf", Sec: "g", PType: gt, FI: 0, Vals: []string{L[0][0]}},
 		EOp{Kind: "rmf", Sec: "g", PType: gt, FI: 1, Vals: []string{L[1][1]}},
 		EOp{Kind: "clear"}, EOp{Kind: "load"}, EOp{Kind: "save"},
@@ -77,7 +81,7 @@ func runC05(c *Ctx) {
 		depth = 4
 	}
 	c.Exhaustive = true
-	c.Rule = fmt.Sprintf("all histories of depth <= %d over 21 grouping-policy calls (single, batch, Ex, update, batch update, filtered removal, ClearPolicy, LoadPolicy, SavePolicy) on a 3-name universe, for the plain manager, the domain manager (2 domains) and two role definitions (g, g2), with an auto-saving adapter; after every call HasLink over the whole universe, GetRoles, GetUsers and the listed grouping rules are compared with the Lean model and with reachability through the listed rules (spec); plus seeded random histories incl. over-long rules; non-trivial = some call changed the graph and some call was refused; distinct = whole history", depth)
+	c.Rule = fmt.Sprintf("all histories of depth <= %d over 22 grouping-policy calls (single, batch, Ex, update, batch update, filtered removal, ClearPolicy, LoadPolicy, SavePolicy) on a 3-name universe, for the plain manager, the domain manager (2 domains) and two role definitions (g, g2), with an auto-saving adapter; after every call HasLink over the whole universe, GetRoles, GetUsers and the listed grouping rules are compared with the Lean model and with reachability through the listed rules (spec); plus seeded random histories incl. over-long rules; non-trivial = some call changed the graph and some call was refused; distinct = whole history", depth)
 	names := []string{"a", "b", "c"}
 	// plain manager
 	L := [][]string{{"a", "b"}, {"b", "c"}, {"c", "a"}, {"a", "c"}}
@@ -117,6 +121,40 @@ func runC05(c *Ctx) {
 	}
 	enumerate(c, cfg2)
 
+	// a reload that the role manager rejects at its j-th link (implementation only: a failing role
+	// manager is not part of the protocol): afterwards the graph must still mirror the listed rules
+	for j := 1; j <= 4; j++ {
+		for _, preLinks := range [][][]string{{}, {{"a", "b"}}, {{"a", "b"}, {"b", "c"}}} {
+			s := StartCaseQuiet(rbacSpec(false, false), CaseOpts{Adapter: true})
+			for _, l := range preLinks {
+				s.Exec(EOp{Kind: "add", Sec: "g", PType: "g", Rule: l})
+			}
+			frm := &failingRM{RoleManager: s.E.GetRoleManager()}
+			s.E.SetRoleManager(frm)
+			_ = s.E.BuildRoleLinks()
+			s.A.Lines = append(s.A.Lines, memLine("g", "c", "a"), memLine("g", "x", "a"), memLine("g", "b", "x"))
+			frm.n, frm.failAt = 0, j
+			err := s.E.LoadPolicy()
+			frm.failAt = 0
+			c.Evals++
+			if err == nil {
+				continue
+			}
+			listed, _ := s.E.GetGroupingPolicy()
+			ref, _ := casbin.NewEnforcer(rbacSpec(false, false).Build())
+			_, _ = ref.AddGroupingPolicies(cloneRules(listed))
+			for _, u := range []string{"a", "b", "c", "x"} {
+				for _, r := range []string{"a", "b", "c", "x"} {
+					live, _ := s.E.GetRoleManager().HasLink(u, r)
+					want, _ := ref.GetRoleManager().HasLink(u, r)
+					if live != want {
+						c.Direct("after a reload rejected by the role manager the role graph does not mirror the listed grouping rules", fmt.Sprintf("links before=%v AddLink #%d fails; listed=%v HasLink(%s,%s) live=%v rebuilt-from-listed=%v", preLinks, j, listed, u, r, live, want))
+					}
+				}
+			}
+			c.Count("rejected_reload_mirror_checks", 1)
+		}
+	}
 	// random: longer histories, over-long rules (truncated to the definition's arity by casbin)
 	n := 60
 	if c.Thorough() {
